@@ -1,30 +1,46 @@
 (* d_sync.ml — driver for Model/Sync.v (C10 notes sync)
    mode c10-run:  N (TOKEN...)
-     primitive tokens   (commit C K V) (ft C) (tl C) (ml C) (pr C)
-     user-level tokens  (push C) (fetch C)            the whole block, in the code's order
-                        (p0 C) (p1 C) (p01 C) (p2 C) (p3 C)   parts of a push cut at the rendezvous points
-                        (f01 C) (f2 C)                        parts of a fetch
-     out: one group per TOKEN  (OUTCOME REMOTE (LOCAL0 LOCAL1 ...))  then  (fuel B) (known B) (window B)
-     OUTCOME is - unless the token contains a pr step; a map is ((K V)...) sorted by key;
-     window = 1 when some commit fell into the copy window (no_commit_in_copy_window = false) *)
+     primitive tokens   (commit C K V) (ft C) (tl C) (ml C) (pr C)         first-round steps
+     user-level tokens  (push C) (fetch C)            the whole block, in the code's order, all rounds
+       parts of a push cut at the rendezvous points; J = number of the round (1, 2, ...):
+                        (p0 C) (p1 C) (p01 C)   round 1 up to the point after its fetch
+                        (pm C J)                test + merge of round J
+                        (pr C J)                push of round J, then round J+1 up to the point after its fetch
+                        (pe C J)                push of round J, then all remaining rounds
+                        (f01 C) (f2 C)          parts of a fetch
+     out: one group per TOKEN  (OUTCOME REMOTE (LOCAL0 LOCAL1 ...))  then
+          (fuel B) (known B) (window B) (attempts R)
+     OUTCOME is the outcome of the last notes push executed within the token, - if none;
+     a map is ((K V)...) sorted by key; window = 1 when some commit fell into the copy window *)
 let rec nat_of_int (n : int) : nat = if n <= 0 then O else S (nat_of_int (n - 1))
 let rec int_of_nat (n : nat) : int = match n with O -> 0 | S m -> 1 + int_of_nat m
 
-let steps_of x = match list x with
-  | [Sym "commit"; c; k; v] -> [Commit (nat_of_int (num c), n_of_int (num k), n_of_int (num v))]
-  | [Sym "ft"; c] -> [FetchTracking (nat_of_int (num c))]
-  | [Sym "tl"; c] -> [TestLocal (nat_of_int (num c))]
-  | [Sym "ml"; c] -> [MergeLocal (nat_of_int (num c))]
-  | [Sym "pr"; c] -> [PushRef (nat_of_int (num c))]
-  | [Sym "push"; c] -> pushNotes (nat_of_int (num c))
-  | [Sym "fetch"; c] -> fetchNotes (nat_of_int (num c))
-  | [Sym "p0"; c] -> push_part0 (nat_of_int (num c))
-  | [Sym "p1"; c] -> push_part1 (nat_of_int (num c))
-  | [Sym "p01"; c] -> let c = nat_of_int (num c) in push_part0 c @ push_part1 c
-  | [Sym "p2"; c] -> push_part2 (nat_of_int (num c))
-  | [Sym "p3"; c] -> push_part3 (nat_of_int (num c))
-  | [Sym "f01"; c] -> let c = nat_of_int (num c) in fetch_part0 c @ fetch_part1 c
-  | [Sym "f2"; c] -> fetch_part2 (nat_of_int (num c))
+let rounds = int_of_nat push_attempts
+
+let steps_of x =
+  let c_of c = nat_of_int (num c) in
+  match list x with
+  | [Sym "commit"; c; k; v] -> [Commit (c_of c, n_of_int (num k), n_of_int (num v))]
+  | [Sym "ft"; c] -> [FetchTracking (false, c_of c)]
+  | [Sym "tl"; c] -> [TestLocal (false, c_of c)]
+  | [Sym "ml"; c] -> [MergeLocal (false, c_of c)]
+  | [Sym "pr"; c] -> [PushRef (false, c_of c)]
+  | [Sym "push"; c] -> pushNotes (c_of c)
+  | [Sym "fetch"; c] -> fetchNotes (c_of c)
+  | [Sym "p0"; c] -> push_part0 false (c_of c)
+  | [Sym "p1"; c] -> push_part1 false (c_of c)
+  | [Sym "p01"; c] -> push_part0 false (c_of c) @ push_part1 false (c_of c)
+  | [Sym "pm"; c; j] -> let j = num j in if j > rounds then [] else push_part2 (j > 1) (c_of c)
+  | [Sym "pr"; c; j] ->
+      let j = num j in
+      if j > rounds then []
+      else push_part3 (j > 1) (c_of c)
+           @ (if j < rounds then push_part0 true (c_of c) @ push_part1 true (c_of c) else [])
+  | [Sym "pe"; c; j] ->
+      let j = num j in
+      if j > rounds then [] else push_part3 (j > 1) (c_of c) @ retries (nat_of_int (rounds - j)) (c_of c)
+  | [Sym "f01"; c] -> fetch_part0 (c_of c) @ fetch_part1 (c_of c)
+  | [Sym "f2"; c] -> fetch_part2 (c_of c)
   | _ -> failwith "token"
 
 let show_map (m : (n * n) list) =
@@ -47,15 +63,17 @@ let c10_run body = match parse_many body with
       List.iter (fun steps ->
           let o = ref (Sym "-") in
           List.iter (fun x ->
-              (match x with PushRef c -> o := Sym (show_pres (push_outcome !s c)) | _ -> ());
+              (match x with
+               | PushRef (r, c) -> if not (skip !s r c) then o := Sym (show_pres (push_outcome !s c))
+               | _ -> ());
               s := exec !s x) steps;
           let locals = List.map (fun c -> show_map (local_map !s (nat_of_int c))) (range 0 n) in
           out := L [!o; show_map (remote_map !s); L locals] :: !out) toks;
       let groups = List.rev !out in
       let all = List.concat toks in
       String.concat " " (List.map show groups)
-      ^ Printf.sprintf " (fuel %s) (known %s) (window %s)" (bool_s !s.fuel_out) (bool_s (known_C10 all))
-          (bool_s (not (no_commit_in_copy_window (nat_of_int n) all)))
+      ^ Printf.sprintf " (fuel %s) (known %s) (window %s) (attempts %d)" (bool_s !s.fuel_out) (bool_s (known_C10 all))
+          (bool_s (not (no_commit_in_copy_window (nat_of_int n) all))) rounds
   | _ -> failwith "c10-run"
 
 let () = run_driver ["c10-run", c10_run] []
